@@ -70,7 +70,7 @@ func (gh *goHessian) ReadFrom(reader ByteRuneReader) (interface{}, error) {
 
 // Read from reader continuously, it must be called after calling goHessian.ReadObject
 func (gh *goHessian) Read() (interface{}, error) {
-	return gh.decoder.ReadData()
+	return gh.decoder.ReadObject()
 }
 
 // Decode convert bytes to object
